@@ -5,18 +5,31 @@
 #include <cstdlib>
 #include <cstring>
 static unsigned naive(const unsigned char *p, size_t n) { unsigned s = 0; for (size_t i = 0; i < n; ++i) s += p[i]; return s & 0xff; }
+static int fill_mode = 0;	// 0 = seeded pseudo-random with 0xff every 7th byte, otherwise every byte = fill_mode - 1
 static int one(size_t sz, unsigned offset, int len, unsigned seed, bool quiet)
 {
 	const size_t n = len != -1 ? (size_t)len : sz - offset;
 	// buffer of exactly the bytes the property allows to be read; ASan traps any read outside
 	unsigned char *buf = (unsigned char *)malloc(offset + n ? offset + n : 1);
 	srand(seed);
-	for (size_t i = 0; i < offset + n; ++i) buf[i] = (i % 7 == 0) ? 0xff : (unsigned char)rand();
+	for (size_t i = 0; i < offset + n; ++i) buf[i] = fill_mode ? (unsigned char)(fill_mode - 1) : (i % 7 == 0) ? 0xff : (unsigned char)rand();
 	const unsigned got = FIX8::Message::calc_chksum((const char *)buf, sz, offset, len);
 	const unsigned want = naive(buf + offset, n);
 	if (!quiet || got != want)
 		printf("{\"sz\":%zu,\"offset\":%u,\"len\":%d,\"seed\":%u,\"got\":%u,\"want\":%u,\"mismatch\":%s}\n", sz, offset, len, seed, got, want, got != want ? "true" : "false");
 	free(buf);
+	return got != want;
+}
+// the std::string overload: calc_chksum(str, offset, len) == byte sum of [offset, offset+n) of str
+static int one_str(size_t sz, unsigned offset, int len, bool quiet)
+{
+	std::string str(sz, ' ');
+	for (size_t i = 0; i < sz; ++i) str[i] = (char)(i * 37 + 11);
+	const size_t n = len != -1 ? (size_t)len : sz - offset;
+	const unsigned got = FIX8::Message::calc_chksum(str, offset, len);
+	const unsigned want = naive((const unsigned char *)str.data() + offset, n);
+	if (!quiet || got != want)
+		printf("{\"overload\":\"f8String\",\"size\":%zu,\"offset\":%u,\"len\":%d,\"got\":%u,\"want\":%u,\"mismatch\":%s}\n", sz, offset, len, got, want, got != want ? "true" : "false");
 	return got != want;
 }
 int main(int argc, char **argv)
@@ -31,6 +44,21 @@ int main(int argc, char **argv)
 				for (int len = 0; (size_t)off + len <= sz && !bad; len += (len < 20 ? 1 : 37))
 					bad |= one(sz, off, len, (unsigned)sz * 17 + off + len, true);
 			}
+		for (size_t sz = 0; sz <= 300 && !bad; sz += (sz < 40 ? 1 : 13))
+			for (unsigned off = 0; off <= sz / 2 && off <= 12 && !bad; ++off)	// off <= sz/2: a wrong length must not take the scan out of the string
+			{
+				bad |= one_str(sz, off, -1, true);
+				if (off + 3 <= sz) bad |= one_str(sz, off, 3, true);
+			}
+		// carry-lane stress: constant fills (0xff saturates every lane carry) on long buffers, where the 256-byte flush bookkeeping matters
+		for (int fm : { 0x100, 0xff, 0x81, 0x80 })
+		{
+			fill_mode = fm;
+			for (size_t sz = 248; sz <= 4200 && !bad; sz += (sz < 1100 ? 1 : 13))
+				for (unsigned off = 0; off <= 3 && !bad; ++off)
+					bad |= one(sz, off, -1, 1, true);
+		}
+		fill_mode = 0;
 		printf("{\"search_done\":true,\"mismatch\":%s}\n", bad ? "true" : "false");
 		return bad;
 	}
